@@ -514,3 +514,94 @@ Proof.
 Qed.
 
 End S2.
+
+(* ---------- acceptance order is respected for ever (pushes after Close included) ---------- *)
+Inductive Sub {A} : list A -> list A -> Prop :=
+| sub_nil : Sub [] []
+| sub_skip l1 l2 x : Sub l1 l2 -> Sub l1 (x :: l2)
+| sub_keep l1 l2 x : Sub l1 l2 -> Sub (x :: l1) (x :: l2).
+
+Lemma Sub_refl {A} (l : list A) : Sub l l.
+Proof. induction l; [apply sub_nil | apply sub_keep; assumption]. Qed.
+Lemma Sub_nil_l {A} (l : list A) : Sub [] l.
+Proof. induction l; [apply sub_nil | apply sub_skip; assumption]. Qed.
+Lemma Sub_app_tail {A} (l1 l2 : list A) x : Sub l1 l2 -> Sub (l1 ++ [x]) (l2 ++ [x]).
+Proof. induction 1; cbn [app]; [apply sub_keep, sub_nil | apply sub_skip; assumption | apply sub_keep; assumption]. Qed.
+Lemma Sub_drop_suffix {A} (l1 s l2 : list A) : Sub (l1 ++ s) l2 -> Sub l1 l2.
+Proof.
+  revert l1 s. induction l2 as [|y t IH]; intros l1 s H.
+  - inversion H as [E| |]. destruct l1; [apply sub_nil|discriminate].
+  - inversion H as [|? ? ? H' E1 E2|? ? ? H' E1 E2]; subst.
+    + apply sub_skip. eapply IH; eassumption.
+    + destruct l1 as [|z l1'].
+      * apply Sub_nil_l.
+      * cbn [app] in E1. injection E1 as -> ->. apply sub_keep. eapply IH; eassumption.
+Qed.
+
+Definition OInv (c : cfg) : Prop :=
+  exists q, Live (cring c) q /\ Sub (executed c ++ inhand (cons c) ++ q) (accepted c).
+
+Section S3.
+Variable cb_err : item -> bool.
+
+Lemma oinv_init size r work : 0 < size -> rnew size = Some r -> OInv (init_cfg r work).
+Proof.
+  intros Hs Hn. exists []. split; [|apply sub_nil].
+  destruct (rnew_R size r Hs Hn) as (_ & _ & HL). exact HL.
+Qed.
+
+Lemma oinv_step c t c' : OInv c -> step cb_err c t = Some c' -> OInv c'.
+Proof.
+  intros (q & HL & HS) Hs. destruct t as [| |i]; cbn [step] in Hs.
+  - unfold step_cons in Hs. destruct (cons c) eqn:Ek.
+    + destruct (free c); [|discriminate]. injection Hs as <-. exists q. cbn. split; assumption.
+    + destruct (rpull (cring c)) as [x r'| | |] eqn:Ep; try discriminate; injection Hs as <-; cbn [cring with_cons with_ring with_owner accepted executed cons inhand app] in *.
+      * destruct q as [|y t].
+        -- unfold rpull in Ep. rewrite (live_head _ _ HL) in Ep. destruct (rclosed (cring c)); discriminate.
+        -- destruct (live_pull _ y t HL) as (r'' & Hp & HL' & _). rewrite Hp in Ep. injection Ep as <- <-.
+           exists t. split; assumption.
+      * exists q. split; assumption.
+      * exists q. split; assumption.
+    + injection Hs as <-. exists q. cbn. split; assumption.
+    + injection Hs as <-. exists q. cbn. split; assumption.
+    + discriminate.
+    + destruct (free c); [|discriminate]. injection Hs as <-. exists q. cbn. split; assumption.
+    + injection Hs as <-. exists q. cbn. split; assumption.
+    + injection Hs as <-. exists q. cbn [cring accepted executed cons]. split; [assumption|].
+      cbn [inhand app] in HS. replace (inhand (if cb_err x then CStopped else CIdle)) with (@nil item) by (destruct (cb_err x); reflexivity).
+      cbn [app]. rewrite <- app_assoc. exact HS.
+    + discriminate.
+  - unfold step_close in Hs. destruct (closer c) eqn:Ek.
+    + destruct (free c); [|discriminate]. injection Hs as <-. exists q. cbn. split; assumption.
+    + injection Hs as <-. exists []. cbn [cring accepted executed cons]. split; [eapply live_of_close; eassumption|].
+      rewrite app_nil_r. rewrite app_assoc in HS. eapply Sub_drop_suffix; eassumption.
+    + injection Hs as <-. exists q. cbn. split; assumption.
+    + injection Hs as <-. exists q. cbn. rewrite inhand_wake. split; assumption.
+    + destruct (cons c) eqn:Ec; try discriminate. injection Hs as <-. exists q. cbn. rewrite ?Ec. split; assumption.
+    + discriminate.
+  - unfold step_prod in Hs. destruct (nth_error (prods c) i) as [p|] eqn:En; [|discriminate].
+    destruct p as [[|x todo]|x todo|[|] todo|todo].
+    + discriminate.
+    + destruct (free c); [|discriminate]. injection Hs as <-. exists q. cbn. split; assumption.
+    + destruct (rpush (cring c) x) as [r'| |] eqn:Ep; try discriminate; injection Hs as <-; cbn [cring accepted executed cons].
+      * destruct (N.ltb_spec (nlen q) (rsize (cring c))) as [Hlt|Hge].
+        -- destruct (live_push _ q x HL Hlt) as (r'' & Hp & HL' & _). rewrite Hp in Ep. injection Ep as <-.
+           exists (q ++ [x]). split; [assumption|]. rewrite !app_assoc. apply Sub_app_tail. rewrite <- !app_assoc. exact HS.
+        -- rewrite (live_push_full _ q x HL Hge) in Ep. discriminate.
+      * exists q. split; assumption.
+    + injection Hs as <-. exists q. cbn. split; assumption.
+    + injection Hs as <-. exists q. cbn. split; assumption.
+    + injection Hs as <-. exists q. cbn. rewrite inhand_wake. split; assumption.
+Qed.
+
+Theorem order_for_ever size r work sched :
+  0 < size -> rnew size = Some r -> OInv (exec cb_err (init_cfg r work) sched).
+Proof.
+  intros Hs Hn.
+  assert (G : forall sched c, OInv c -> OInv (exec cb_err c sched)).
+  { clear. induction sched as [|t rest IH]; intros c H; cbn [exec]; [assumption|].
+    destruct (step cb_err c t) as [c'|] eqn:E; [|now apply IH]. apply IH. eapply oinv_step; eassumption. }
+  apply G. eapply oinv_init; eassumption.
+Qed.
+
+End S3.
